@@ -84,6 +84,14 @@ def run(c):
         src, before, after = unhex(s), unhex(b), unhex(a)
         if len(src) >= n - 1:
             nontrivial.add((fn, len(src), n))
+        if str(r) == "0":
+            # the call reports that it copied nothing (no such property / key, empty value): the property speaks of the calls
+            # that copy; what is demanded here is only that the buffer was left alone
+            why = "wrote-although-it-reports-failure" if after != before else None
+            if why:
+                o_fail.setdefault((fn, why), {"fn": fn, "src_hex": s, "src_len": len(src), "n": n, "before": b, "after": a,
+                                              "clause": why, "call": "%s(buf, %d) returning false" % (fn, n)})
+            continue
         if m != a:
             mismatches.append({"fn": fn, "src": s, "n": n, "before": b, "impl_after": a, "model_after": m})
         why = monitor(fn, src, n, before, after)
@@ -144,8 +152,9 @@ def replay(c, r):
     for (f, s, k, b, a, ret) in rows:
         src = unhex(s)
         if f == fn and len(src) == ln and k == n:
-            why = monitor(f, src, k, unhex(b), unhex(a))
-            print("replay %s len=%d n=%d before=%s after=%s -> %s" % (f, ln, n, b, a, why or "ok"))
+            why = monitor(f, src, k, unhex(b), unhex(a)) if str(ret) != "0" else \
+                ("wrote-although-it-reports-failure" if a != b else None)
+            print("replay %s len=%d n=%d ret=%s before=%s after=%s -> %s" % (f, ln, n, ret, b, a, why or "ok"))
             return 1 if why else 0
     print("replay: case not reproduced")
     return 1
